@@ -53,6 +53,7 @@ fn gens(tier: Tier) -> Vec<Gen> {
         Gen::new("byte_mutations", tier.pick(4, 8_000, 600_000)),
         Gen::new("random_scripts", tier.pick(4, 6_000, 400_000)),
         Gen::new("hostile_field_sections", tier.pick(4, 3_000, 150_000)),
+        Gen::new("uni_stream_bursts", tier.pick(4, 2_000, 100_000)),
         Gen::new("regressions", 1),
     ]
 }
@@ -92,6 +93,9 @@ pub enum POp {
     Reset { slot: u8, code: u64 },
     Stop { slot: u8, code: u64 },
     Close { code: u64 },
+    /// everything before this marker is done by the peer before the endpoint is polled for the
+    /// first time (a first flight that is already queued in the transport)
+    Prestage,
 }
 
 const CODES: [u64; 8] = [0, 0x100, 0x101, 0x10c, 0x10d, 0x10e, 0x200, (1 << 62) - 1];
@@ -115,6 +119,7 @@ pub fn encode(ops: &[POp]) -> Vec<u8> {
             POp::Reset { slot, code } => b.extend([4, *slot, CODES.iter().position(|c| c == code).unwrap_or(0) as u8]),
             POp::Stop { slot, code } => b.extend([5, *slot, CODES.iter().position(|c| c == code).unwrap_or(0) as u8]),
             POp::Close { code } => b.extend([6, CODES.iter().position(|c| c == code).unwrap_or(0) as u8]),
+            POp::Prestage => b.push(7),
         }
     }
     b
@@ -130,7 +135,7 @@ pub fn decode(b: &[u8]) -> Vec<POp> {
         v
     };
     while i < b.len() && ops.len() < 64 {
-        let op = get(&mut i) % 7;
+        let op = get(&mut i) % 8;
         match op {
             0 => ops.push(POp::OpenBidi),
             1 => ops.push(POp::OpenUni),
@@ -151,6 +156,7 @@ pub fn decode(b: &[u8]) -> Vec<POp> {
                 let slot = get(&mut i);
                 ops.push(POp::Stop { slot, code: CODES[get(&mut i) as usize % CODES.len()] });
             }
+            7 => ops.push(POp::Prestage),
             _ => {
                 ops.push(POp::Close { code: CODES[get(&mut i) as usize % CODES.len()] });
                 break;
@@ -532,8 +538,12 @@ pub fn run_script(ops: &[POp], h3_is_server: bool, split: bool, nreq_client: usi
     // raw server: bidi "opens" refer to the client's request streams, in order
     let mut client_stream_idx = 0u64;
     let mut planned_slots: Vec<Option<u64>> = Vec::new(); // Some(id) when the id is known statically (client's streams)
+    let mut prestaged_steps = 0usize;
     for op in ops {
         match op.clone() {
+            POp::Prestage => {
+                prestaged_steps = steps.len();
+            }
             POp::OpenBidi => {
                 if h3_is_server {
                     let s = slots.clone();
@@ -667,6 +677,23 @@ pub fn run_script(ops: &[POp], h3_is_server: bool, split: bool, nreq_client: usi
             break;
         }
     }
+    // the first flight: done before anything of h3 runs
+    if prestaged_steps > 0 {
+        let mut n = lock(&net);
+        let mut srng = Rng::new(seed ^ 0x9e37);
+        for st in steps.drain(..prestaged_steps) {
+            if (st.ready)(&n) {
+                n.time += 1;
+                (st.run)(&mut n, &mut srng);
+            }
+        }
+        // and delivered, as far as the network model lets bytes and stream ends through at once
+        for _ in 0..10_000 {
+            let acts = n.enabled_actions();
+            let Some(a) = acts.into_iter().find(|a| matches!(a, sim::NetAction::Deliver { .. } | sim::NetAction::DeliverFin { .. } | sim::NetAction::DeliverReset { .. })) else { break };
+            n.apply(a, &mut srng);
+        }
+    }
     sched.add_script(steps);
     let sp = sched.spawner.clone();
     if h3_is_server {
@@ -700,6 +727,16 @@ pub fn run_script(ops: &[POp], h3_is_server: bool, split: bool, nreq_client: usi
     if !out.step_cap {
         let n = lock(&net);
         if n.closed.is_none() {
+            // a driver that is waiting must have drained what the transport has queued for it: a
+            // pending accept means its last poll of the transport's accept calls returned Pending
+            let driver = if h3_is_server { ("s:conn", "accept") } else { ("c:driver", "wait_idle") };
+            if probe.open().get(driver.0).map(|(op, _)| *op) == Some(driver.1) {
+                let q_uni = n.sides[h3_side].accept_q_uni.len();
+                out.stream_end_checks += 1;
+                if q_uni > 0 {
+                    out.stuck.push(format!("{} {} pending although {} incoming unidirectional stream(s) are queued in the transport for it (nothing will wake it)", driver.0, driver.1, q_uni));
+                }
+            }
             for (actor, (op, _)) in probe.open() {
                 let Some(sid) = actor_stream(&actor, &probe) else { continue };
                 let Some(s) = n.streams.get(&sid) else { continue };
@@ -989,6 +1026,73 @@ fn run_case(gen: &str, index: u64, seed: u64, _tier: Tier, rep: &mut Report) {
             for _ in 0..1 + rng.usize(4) {
                 mutate_bytes(&mut ops, &mut rng);
             }
+            check_script(&ops, h3_is_server, rng.bool(), nreq, rng.next(), rep);
+        }
+        "uni_stream_bursts" => {
+            // a first flight of many unidirectional streams (reserved, unknown, QPACK, push with
+            // ids, cut short or complete) ahead of the control stream, queued before the endpoint
+            // is polled for the first time or trickling in; then an ordinary scenario
+            let h3_is_server = rng.bool();
+            let nreq = 1 + rng.usize(2);
+            let burst = *rng.pick(&[1usize, 3, 7, 8, 9, 12, 16, 24]);
+            let mut ops: Vec<POp> = Vec::new();
+            for i in 0..burst {
+                ops.push(POp::OpenUni);
+                let ty: u64 = match rng.below(6) {
+                    0 => 0x21 + 0x1f * rng.below(1 << 20),
+                    1 => 0x2a,
+                    2 => (1 << 62) - 1 - rng.below(3),
+                    3 => 0x54,
+                    4 => 0x01,
+                    _ => 0x40 + rng.below(64),
+                };
+                let mut data = rv::encode(ty).unwrap();
+                if rng.bool() {
+                    data.extend(rv::encode(rng.below(1 << 16)).unwrap());
+                    data.extend(rng.bytes_upto(6));
+                }
+                if rng.chance(1, 5) && data.len() > 1 {
+                    data.truncate(1 + rng.usize(data.len() - 1));
+                }
+                ops.push(POp::Write { slot: i as u8, data });
+                if rng.chance(4, 5) {
+                    ops.push(POp::Fin { slot: i as u8 });
+                } else if rng.bool() {
+                    ops.push(POp::Reset { slot: i as u8, code: *rng.pick(&CODES) });
+                }
+            }
+            let shift = |o: POp| -> POp {
+                let b = burst as u8;
+                match o {
+                    POp::Write { slot, data } => POp::Write { slot: slot + b, data },
+                    POp::Fin { slot } => POp::Fin { slot: slot + b },
+                    POp::Reset { slot, code } => POp::Reset { slot: slot + b, code },
+                    POp::Stop { slot, code } => POp::Stop { slot: slot + b, code },
+                    other => other,
+                }
+            };
+            let sk = skeleton(h3_is_server, nreq, rng.below(32), &mut rng);
+            let stage_all_of_control = rng.bool();
+            let prestage = rng.chance(2, 3);
+            let mut it = sk.into_iter().map(shift);
+            if prestage && !stage_all_of_control {
+                ops.push(POp::Prestage);
+            }
+            // the control stream: its first two ops (open + SETTINGS)
+            for _ in 0..2 {
+                if let Some(o) = it.next() {
+                    ops.push(o);
+                }
+            }
+            if prestage && stage_all_of_control {
+                ops.push(POp::Prestage);
+            }
+            ops.extend(it);
+            if rng.chance(1, 3) {
+                // the peer ends its control stream: must be noticed (H3_CLOSED_CRITICAL_STREAM)
+                ops.push(POp::Fin { slot: burst as u8 });
+            }
+            rep.count(if prestage { "burst[queued before the first poll]" } else { "burst[trickling in]" });
             check_script(&ops, h3_is_server, rng.bool(), nreq, rng.next(), rep);
         }
         "hostile_field_sections" => {
